@@ -77,6 +77,51 @@ def tr_cond(tr, n):
     return "(CE %s)" % leaf.coq_of(tr.tr(n))
 
 
+def _local_refs(node, acc):
+    if isinstance(node, dict):
+        if node.get("kind") == "DeclRefExpr" and node.get("referencedDecl", {}).get("kind") == "VarDecl":
+            acc.add(leaf._norm_name(node["referencedDecl"].get("name", "?")))
+        if node.get("kind") == "MemberExpr" and node.get("inner") and leaf._strip(node["inner"][0]).get("kind") == "CXXThisExpr":
+            acc.add(leaf._norm_name(node.get("name", "?")))      # data member of Phreeqc used as a scratch variable (b2, R_TK ...)
+        for c in node.get("inner", []) or []:
+            _local_refs(c, acc)
+
+
+def rd_inline(fn, site, keep):
+    """reaching-definition inlining: every LOCAL variable mentioned by the right-hand side (transitively) that is not one of
+    the theorem's named operands is replaced by the last assignment to it that precedes the statement in source order.
+    Introducing, removing or renaming a temporary is therefore invisible to the theorems."""
+    keep = {leaf._norm_name(k) for k in keep}
+    inl = {}
+
+    def visit(s):
+        names = set()
+        _local_refs(s.node, names)
+        if s.kind == "compound" and s.prev is not None:
+            visit(s.prev)
+        for nm in sorted(names):
+            if nm in keep or nm in inl:
+                continue
+            cands = [t for t in fn.sites if t.lhs == nm]
+            before = [t for t in cands if t.order < s.order]
+            if not before:
+                continue
+            d = before[-1]
+            inl[nm] = {"nth": cands.index(d)}
+            visit(d)
+    visit(site)
+    return inl
+
+
+def mk(fn, name, vars_, consts=None, increment=False, **sel):
+    sel2 = dict(sel)
+    if increment:
+        sel2.setdefault("kind", "compound")
+    site = fn.select(**sel2)
+    inl = rd_inline(fn, site, vars_)
+    return fn.leaf(name, vars=list(vars_), inline=inl, consts=consts or {}, allow_new_vars=False, increment=increment, **sel)
+
+
 def cs(s):
     return '"' + s.replace('"', '""') + '"'
 
@@ -107,37 +152,35 @@ def pr_leaves(fn, pre, vbranch, pbranch):
     branches in that copy."""
     L = []
 
-    def lf(name, vars_, inline=None, **sel):
-        L.append(fn.leaf(pre + name, vars=vars_, inline=inline or {}, allow_new_vars=False, **sel))
-    crit = {"T_c": {}, "P_c": {}}
+    def lf(name, vars_, **sel):
+        L.append(mk(fn, pre + name, vars_, **sel))
+    crit = ["R", PH + "t_c", PH + "p_c"]
     lf("R", [], lhs="R", kind="init")
-    lf("pr_a", ["R", PH + "t_c", PH + "p_c"], crit, lhs=PH + "pr_a")
-    lf("pr_b", ["R", PH + "t_c", PH + "p_c"], crit, lhs=PH + "pr_b")
+    lf("pr_a", crit, lhs=PH + "pr_a")
+    lf("pr_b", crit, lhs=PH + "pr_b")
     for k in (0, 1):
-        lf("alpha%d" % k, ["TK", PH + "t_c", PH + "omega"], {"T_r": {"nth": k}, "oo": {"nth": k}, "kk": {"nth": k}, "T_c": {}},
-           lhs=PH + "pr_alpha", nth=k)
-    L.append(fn.leaf(pre + "bsum_inc", vars=[PH + "fraction_x", PH + "pr_b"], allow_new_vars=False, increment=True, lhs="b_sum"))
-    L.append(fn.leaf(pre + "aa", vars=[PH + "pr_a", PH + "pr_alpha", PH1 + "pr_a", PH1 + "pr_alpha", BIP], allow_new_vars=False,
-                     consts={BIP_RENDERED: leaf.Var(4)}, lhs="a_aa", kind="compound"))
+        lf("alpha%d" % k, ["TK", PH + "t_c", PH + "omega"], lhs=PH + "pr_alpha", nth=k)
+    lf("bsum_inc", [PH + "fraction_x", PH + "pr_b"], increment=True, lhs="b_sum")
+    L.append(mk(fn, pre + "aa", [PH + "pr_a", PH + "pr_alpha", PH1 + "pr_a", PH1 + "pr_alpha", BIP],
+                consts={BIP_RENDERED: leaf.Var(4)}, lhs="a_aa", kind="compound"))
     args = bip_call_args(fn)
     if args != [("phase_ptr->name", "phase_ptr1->name")]:
         raise LeafError("%scalc_PR: binary interaction factor is not taken for the pair (i, j): %r" % (pre, args))
-    L.append(fn.leaf(pre + "aasum_inc", vars=[PH + "fraction_x", PH1 + "fraction_x", "a_aa"], allow_new_vars=False, increment=True, lhs="a_aa_sum"))
-    L.append(fn.leaf(pre + "aasum2_inc", vars=[PH1 + "fraction_x", "a_aa"], allow_new_vars=False, increment=True, lhs="a_aa_sum2"))
+    lf("aasum_inc", [PH + "fraction_x", PH1 + "fraction_x", "a_aa"], increment=True, lhs="a_aa_sum")
+    lf("aasum2_inc", [PH1 + "fraction_x", "a_aa"], increment=True, lhs="a_aa_sum2")
     lf("aasum2_store", ["a_aa_sum2"], lhs=PH + "pr_aa_sum2")
     lf("x_frac", [PH + "moles_x" if pre == "p_" else "gas_unknowns[i]->moles", "m_sum"], lhs=PH + "fraction_x", nth=-1)   # x_i = n_i / sum n
-    b2 = {"b2": {}}
     # pressure from the molar volume; P at the spinodal volume v1 (three-root region); cubic coefficients in both branches
-    lf("P", ["R_TK", "V_m", "b_sum", "a_aa_sum"], b2, lhs="P", under=[vbranch], nth=(0 if pre == "p_" else 1))
-    lf("P_v1", ["R_TK", "v1", "b_sum", "a_aa_sum"], b2, lhs="P", under=[vbranch, "disct > 0"])
+    lf("P", ["R_TK", "V_m", "b_sum", "a_aa_sum"], lhs="P", under=[vbranch], nth=(0 if pre == "p_" else 1))
+    lf("P_v1", ["R_TK", "v1", "b_sum", "a_aa_sum"], lhs="P", under=[vbranch, "disct > 0"])
     for br, tag in ((vbranch, "v"), (pbranch, "p")):
         for k in (1, 2, 3):
-            lf("r3%d_%s" % (k, tag), ["b_sum", "R_TK", "a_aa_sum", "P"], b2, lhs="r3[%d]" % k, under=[br])
+            lf("r3%d_%s" % (k, tag), ["b_sum", "R_TK", "a_aa_sum", "P"], lhs="r3[%d]" % k, under=[br])
     lf("disct", ["r3[1]", "r3[2]", "r3[3]"], lhs="disct")
     # depressed cubic t^3 + rp t + rq (pressure branch)
-    lf("rp", ["r3[1]", "r3[2]", "r3[3]"], {"r3_12": {}}, lhs="rp")
-    lf("rq", ["r3[1]", "r3[2]", "r3[3]"], {"r3_12": {}}, lhs="rq")
-    lf("rzc", ["rp", "rq"], {"rp3": {}}, lhs="rz", nth=0)
+    lf("rp", ["r3[1]", "r3[2]", "r3[3]"], lhs="rp")
+    lf("rq", ["r3[1]", "r3[2]", "r3[3]"], lhs="rq")
+    lf("rzc", ["rp", "rq"], lhs="rz", nth=0)
     # Cardano branches (one real root)
     lf("Vm_card1", ["ri", "rq", "r3[1]", "one_3"], lhs="V_m", under=[pbranch, "rz >= 0", "ri + rq / 2 <= 0"])
     lf("ri_card2", ["ri", "rq", "one_3"], lhs="ri", under=[pbranch, "rz >= 0", "!(ri + rq / 2 <= 0)"])
@@ -145,11 +188,10 @@ def pr_leaves(fn, pre, vbranch, pbranch):
     lf("one_3", [], lhs="one_3", kind="init")
     # fugacity coefficients
     lf("pr_p", [PH + "fraction_x", "P"], lhs=PH + "pr_p", nth=-1)
-    zin = {"rz": {"nth": -1}, "A": {}, "B": {}, "B_r": {}}
     lf("Z", ["P", "V_m", "R_TK"], lhs="rz", nth=-1)
     lf("A", ["a_aa_sum", "P", "R_TK"], lhs="A")
     lf("B", ["b_sum", "P", "R_TK"], lhs="B")
-    lf("lnphi", ["P", "V_m", "R_TK", "b_sum", "a_aa_sum", PH + "pr_b", PH + "pr_aa_sum2"], zin, lhs="phi", under=["rz > B"], nth=0)
+    lf("lnphi", ["P", "V_m", "R_TK", "b_sum", "a_aa_sum", PH + "pr_b", PH + "pr_aa_sum2"], lhs="phi", under=["rz > B"], nth=0)
     lf("lnphi_else", [], lhs="phi", under=["!(rz > B)"])
     lf("pr_phi", ["phi"], lhs=PH + "pr_phi", nth=-1)
     lf("si_f", ["phi", "LOG_10"], lhs=PH + "pr_si_f", nth=-1)
@@ -160,7 +202,10 @@ def pr_leaves(fn, pre, vbranch, pbranch):
     conds = if_node_of(fn, "rz > B")
     if len(conds) != 1:
         raise LeafError("%scalc_PR: expected exactly one `if (rz > B)`" % pre)
-    tr = leaf._Translator(fn, ["P", "V_m", "R_TK", "b_sum"], {"rz": {"nth": -1}, "B": {}}, {}, False)
+    gsite = fn.select(lhs="phi", under=["rz > B"], nth=0)
+    class _G:                       # pseudo-site for the condition expression (placed just before the first guarded statement)
+        node, kind, prev, order = conds[0], "cond", None, gsite.order
+    tr = leaf._Translator(fn, ["P", "V_m", "R_TK", "b_sum"], rd_inline(fn, _G, ["P", "V_m", "R_TK", "b_sum"]), {}, False)
     extra += "Definition %slnphi_guard : bexpr :=\n  %s.\n" % (pre, tr_bool(tr, conds[0]))
     # shape facts: every assignment to pr_phi / pr_si_f / pr_p, and the conditions they sit under
     for lhs in ("pr_phi", "pr_si_f", "pr_p"):
